@@ -22,7 +22,7 @@ from uberjob.progress import Progress, ProgressObserver
 
 GEN = ["Engine", "Observer"]
 ASSUMPTIONS = ["calls end normally or with an Exception (a BaseException raised by a call is reported by the engine but not to the observer)",
-               "observer methods themselves do not raise"]
+               "observer methods themselves do not raise (except that a member of a composite may fail to be entered: the members already entered must then be exited)"]
 
 
 class RecObs(ProgressObserver):
@@ -230,7 +230,78 @@ def check_case(ctx, r, prog, plan, reg, info, lines, expect):
     return viol
 
 
+class EnterFails(Exception):
+    pass
+
+
+class FailingEnterObs(RecObs):
+    def __enter__(self):
+        raise EnterFails("this observer cannot be entered")
+
+
+class OneObsProgress(Progress):
+    def __init__(self, obs):
+        self.obs1 = obs
+
+    def observer(self):
+        return self.obs1
+
+
+def composite_enter_cases(ctx, replay=None):
+    """Composite observers one of whose members cannot be entered (it opens a file, say): the run fails, and every member
+    that WAS entered must be exited exactly once, after everything else it was told; members behind the failing one see
+    nothing at all.  Flat and nested composites, failing member at every position."""
+    from uberjob.progress import composite_progress
+    rng = random.Random(ctx.seed * 31 + 17)
+    viol, done = [], 0
+    shapes = [replay["composite_case"]] if replay else [(k, p, nest) for k in (2, 3, 4) for p in range(k) for nest in (False, True)]
+    for k, p, nest in shapes:
+        members = [FailingEnterObs() if i == p else RecObs() for i in range(k)]
+        progs = [OneObsProgress(o) for o in members]
+        if nest and k >= 3:
+            prog = composite_progress(progs[0], composite_progress(*progs[1:]))
+        else:
+            prog = composite_progress(*progs)
+        rec = plans.Rec()
+        spec = plans.gen_spec(rng, nmax=4)
+        plan, nodes, _ = plans.build(spec, rec, {})
+        exc = None
+        try:
+            uberjob.run(plan, output=[nodes[0]], progress=prog, max_workers=2)
+        except BaseException as e:      # noqa: BLE001
+            exc = e
+        done += 1
+        case = [k, p, bool(nest)]
+        if not isinstance(exc, EnterFails):
+            viol.append({"property": "C15", "what": f"composite of {k} observers, member #{p} raises from __enter__: run gave {exc!r}",
+                         "replay_fn": "composite_enter", "composite_case": case})
+        if rec.events:
+            viol.append({"property": "C15", "what": f"calls executed although the observer could not be entered: {rec.events[:3]}",
+                         "replay_fn": "composite_enter", "composite_case": case})
+        for i, o in enumerate(members):
+            n_enter = sum(1 for e in o.ev if e == ("enter",))
+            n_exit = sum(1 for e in o.ev if e == ("exit",))
+            if i == p:
+                continue
+            if n_enter != n_exit or n_enter > 1 or (n_enter and (o.ev[0] != ("enter",) or o.ev[-1] != ("exit",))):
+                viol.append({"property": "C15", "what": f"composite of {k} observers{' (nested)' if nest else ''}, member #{p} raises from "
+                             f"__enter__: member #{i} was entered {n_enter}x but exited {n_exit}x (its notifications: {o.ev[:6]})",
+                             "replay_fn": "composite_enter", "composite_case": case})
+        if viol:
+            break
+    return {"violations": viol, "coverage": {"composite_enter_failure_cases": done}}
+
+
 def explore(ctx):
+    res = explore_main(ctx)
+    if not res["violations"]:
+        c = composite_enter_cases(ctx)
+        res["violations"] += c["violations"]
+        res["coverage"].update(c["coverage"])
+    return res
+
+
+def explore_main(ctx):
     rng = random.Random(ctx.seed * 48271 + 3)
     n = 140 if ctx.tier == "quick" else 2500
     viol, dis = [], []
@@ -312,6 +383,9 @@ def search(ctx, broken):
 
 def replay(ctx, payload):
     w = payload.get("witness", payload)
+    if w.get("replay_fn") == "composite_enter":
+        r = composite_enter_cases(ctx, replay=w)
+        return r["violations"][0]["what"] if r["violations"] else None
     info = w.get("case")
     if not info or info.get("registry"):
         return w.get("what")
